@@ -13,7 +13,15 @@ scheduler files, of _run_once / call_at / call_later / call_soon[_threadsafe] an
 Handle._run.  Foreign threads call schedule / schedule_relative / dispose, the loop thread may do so
 before run_forever() and from inside actions.  Coarse runs are compared with the model under the same
 schedule (logs and final thread status, in Coq); all runs are judged by the oracle: an action does not
-start after dispose() of its disposable returned; it starts on the loop thread, not before its due time."""
+start after dispose() of its disposable returned; it starts on the loop thread, not before its due time.
+
+Stop / run again: the scenario language has ["stop"] (loop.stop(), from an action, from the loop thread
+between two runs, from a foreign thread), ["sleep", t] (the calling thread waits for the controlled clock: a
+busy callback, or "run again later") and `again` (what the loop thread calls after each return of
+run_forever() before it calls run_forever() again).  run_forever() returns between two iterations of
+_run_once with whatever is queued still queued -- e.g. a marshalled cancel_handle and the callback it is to
+cancel; a dispose() that found the loop running must stay in future.result() until the loop is run again
+and cancel_handle has run ON the loop.  The oracle is the same on these histories."""
 from __future__ import annotations
 
 import hashlib
@@ -52,6 +60,32 @@ FIXED = [
     # two foreign threads, two calls each
     {"ts": True, "t0": 0, "pre": [], "progs": [[["rel", 500, 1], ["dispose", 1]], [["rel", 1007, 2], ["dispose", 2]]],
      "bodies": {}, "ticks": [500, 500]},
+    # ---- the loop is stopped while callbacks are queued, and later run again ----
+    # a busy callback (action 1) keeps the loop running while a foreign thread schedules action 2 and disposes it
+    # (marshalled); the callback then stops the loop: _ready = [interval 2, cancel_handle]; the loop is run again
+    # 199 ms later.  dispose() must still be waiting then.
+    {"ts": True, "t0": 0, "pre": [["now", 1]], "again": [[["sleep", 200000]]],
+     "progs": [[["now", 2], ["dispose", 2]]], "bodies": {"1": [["sleep", 1000], ["stop"]]}, "ticks": []},
+    # the same without sleeps: the interleaving and the passage of time are left to the schedule
+    {"ts": True, "t0": 0, "pre": [["now", 1]], "again": [[]],
+     "progs": [[["now", 2], ["dispose", 2]]], "bodies": {"1": [["stop"]]}, "ticks": [50000]},
+    # a relative schedule: stage2 runs in the stopping iteration, its timer expires while the loop is stopped, the
+    # cancel_handle queued before overtakes it on the next run
+    {"ts": True, "t0": 0, "pre": [["now", 1], ["rel", 500, 2]], "again": [[["sleep", 60000]]],
+     "progs": [[["dispose", 2]]], "bodies": {"1": [["sleep", 500], ["stop"]]}, "ticks": []},
+    # stop() before run_forever() (exactly one iteration), loop-thread dispose between two runs and a foreign dispose
+    # while the loop is stopped (both direct); two further runs
+    {"ts": True, "t0": 0, "pre": [["now", 1], ["rel", 500, 2], ["rel", 1000, 3], ["stop"]],
+     "again": [[["dispose", 2], ["stop"]], [["now", 4]]], "progs": [[["dispose", 3]]], "bodies": {}, "ticks": [500, 500]},
+    # stopped for good with a marshalled cancel_handle queued: that dispose() never returns (quirk, not a violation)
+    {"ts": True, "t0": 0, "pre": [["now", 1]], "again": [],
+     "progs": [[["now", 2], ["dispose", 2]]], "bodies": {"1": [["sleep", 1000], ["stop"]]}, "ticks": []},
+    # plain scheduler, loop thread only: stopped by an action, a timed action disposed between the runs
+    {"ts": False, "t0": 0, "pre": [["now", 1], ["rel", 500, 2], ["rel", 1000, 3]], "again": [[["dispose", 2]]],
+     "progs": [], "bodies": {"1": [["stop"]]}, "ticks": [500, 500]},
+    # a foreign thread stops the loop (loop.stop() is a plain store) and disposes while it may or may not still run
+    {"ts": True, "t0": 0, "pre": [["rel", 500, 1]], "again": [[["sleep", 60000]]],
+     "progs": [[["now", 2], ["stop"], ["dispose", 1], ["dispose", 2]]], "bodies": {}, "ticks": [500]},
 ]
 
 
@@ -86,11 +120,39 @@ def gen_case(rng):
         if rng.random() < 0.3:
             bodies[str(a)] = [["dispose", rng.choice(sched)]] if rng.random() < 0.6 else [sched_op()]
     ticks = [rng.choice([500, 500, 1000]) for _ in range(rng.choice([0, 1, 2, 3]))]
-    return {"ts": ts, "t0": rng.choice([0, 5000]), "pre": pre, "progs": progs, "bodies": bodies, "ticks": ticks}
+    t0 = rng.choice([0, 5000])
+    again = []
+    if rng.random() < 0.45 and sched:
+        # the loop is stopped and run again: by an action (optionally a busy one), by the loop thread before
+        # run_forever(), or by a foreign thread; sleeps are absolute times on the controlled clock (multiples of 500
+        # so that timer expiries stay distinct); 60 ms / 120 ms let a sliced wait of 50 ms expire
+        how = rng.random()
+        if how < 0.6:
+            a = rng.choice(sched)
+            busy = [["sleep", t0 + rng.choice([500, 1000])]] if rng.random() < 0.6 else []
+            bodies[str(a)] = busy + [["stop"]]
+        elif how < 0.8 or not progs:
+            pre = pre + [["stop"]]
+        else:
+            p = rng.choice(progs)
+            p.insert(rng.randrange(len(p) + 1), ["stop"])
+        for k in range(rng.choice([1, 1, 2])):
+            seg = []
+            if rng.random() < 0.6:
+                seg.append(["sleep", t0 + rng.choice([2000, 60000, 120000]) * (k + 1)])
+            if rng.random() < 0.4:
+                seg.append(sched_op() if rng.random() < 0.5 else ["dispose", rng.choice(sched)])
+            if k == 0 and rng.random() < 0.3:
+                seg.append(["stop"])
+            again.append(seg)
+        if rng.random() < 0.3:
+            ticks.append(50000)
+    return {"ts": ts, "t0": t0, "pre": pre, "again": again, "progs": progs, "bodies": bodies, "ticks": ticks}
 
 
 def size(case, sched):
-    return (len(case.get("pre", [])) + sum(len(p) for p in case["progs"])) * 100 + len(sched)
+    return (len(case.get("pre", [])) + sum(len(p) for p in case["progs"]) +
+            sum(len(p) + 1 for p in case.get("again", []))) * 100 + len(sched)
 
 
 def run(chk):
@@ -118,7 +180,9 @@ def run(chk):
     distinct, nontrivial = set(), set()
     samples = []
     evals = 0
-    lim_fixed, lim = (80, 18) if quick else (3000, 300)
+    quirks = {}
+    restarted = set()
+    lim_fixed, lim = (60, 14) if quick else (3000, 300)
 
     def judge(case, r, fine, sched):
         nonlocal evals
@@ -127,7 +191,13 @@ def run(chk):
         distinct.add(h)
         if any(e[2] in ("dispret",) for e in r.log) and k3.preemptions(r.trace) > 0:
             nontrivial.add(h)
+        i_ret = [i for i, e in enumerate(r.log) if e[2] == "runret"]
+        if i_ret and any(e[2] in ("start", "dispret") for e in r.log[i_ret[0]:]):
+            restarted.add(h)
         for sig, msg in A.oracle(case, r):
+            if sig.startswith("NOTE"):
+                quirks[sig] = quirks.get(sig, 0) + 1
+                continue
             chk.violation(sig, {"case": case, "schedule": sched, "fine": fine, "what": msg,
                                 "implementation_log": [list(map(str, e)) for e in r.log]}, size=size(case, sched))
 
@@ -184,14 +254,20 @@ def run(chk):
     chk.cov["distinct_nontrivial"] = len(nontrivial)
     chk.cov["rule"] = ("a case = scheduler kind (thread-safe / plain), calls of the loop thread before run_forever(), "
                        "0-2 foreign threads with 1-3 calls (schedule / schedule_relative / dispose of a returned "
-                       "disposable), optional one-call action bodies (dispose or schedule from inside an action), a "
-                       "clock thread; each case runs on a real asyncio loop under all schedules with <= %d preemptions "
+                       "disposable), optional one-call action bodies (dispose or schedule from inside an action), "
+                       "optionally loop.stop() (from an action -- possibly a busy one that first waits for the clock --, "
+                       "from the loop thread before run_forever(), from a foreign thread) with 1-2 further segments of "
+                       "calls of the loop thread each followed by run_forever() again (optionally after waiting for the "
+                       "clock), a clock thread; each case runs on a real asyncio loop under all schedules with <= %d preemptions "
                        "(capped), seeded random schedules and fine-grained schedules; distinct = distinct (case, "
                        "implementation log); non-trivial = some dispose() took effect and at least one preemption" % bound)
     chk.cov["input_distribution"] = dict(hist, cases=len(cases), distinct_logs=len(distinct),
                                          plain=sum(1 for c in cases if not c["ts"]),
                                          with_bodies=sum(1 for c in cases if c["bodies"]),
-                                         with_pre=sum(1 for c in cases if c["pre"]))
+                                         with_pre=sum(1 for c in cases if c["pre"]),
+                                         with_stop_and_run_again=sum(1 for c in cases if c.get("again")),
+                                         distinct_logs_with_events_after_a_restart=len(restarted))
+    chk.cov["quirks_not_violations"] = quirks
     chk.cov["traces_validated_against_impl"] = len(coq_cases)
     chk.cov["disagreements_checked"] = len([b for b in bad if b >= 0])
     chk.cov["source_is_repaired"] = fixed
@@ -206,8 +282,12 @@ def run(chk):
             "flag + cleared callback, tests at pop and at run",
             "harness/aiodrv.py: driver, line finder for the asyncio sources (fail-closed), Gallina printer, oracle"],
         assumptions=[
-            "the loop does not start while a dispose() that found it not running is in progress (stated in the "
-            "property; enforced by the driver)",
+            "the loop does not start (again) while a dispose() that found it not running is in progress (stated in the "
+            "property; enforced by the driver: the gate is closed from the moment a foreign thread enters "
+            "_on_self_loop_or_not_running until that returns False or, if it returned True, until dispose() returns)",
+            "loop.stop() only takes effect between two iterations of _run_once (CPython's run_forever); a dispose() whose "
+            "cancel_handle is still queued when the loop is stopped for good never returns (liveness is not part of "
+            "the property; counted under quirks_not_violations)",
             "preemption only at the yield points of the chosen granularity; inside one source line (e.g. between "
             "loading handle._callback and entering it in Handle._run) CPython may still switch threads -- with the "
             "repaired code no foreign thread cancels a handle directly while the loop runs, so that window is not "
@@ -226,6 +306,8 @@ def replay(chk, path):
     print(json.dumps({"case": case, "schedule_followed": r.schedule, "log": [list(map(str, e)) for e in r.log],
                       "oracle": bad}, indent=1))
     for sig, msg in bad:
+        if sig.startswith("NOTE"):
+            continue
         chk.violation(sig, {"case": case, "schedule": r.schedule, "fine": fine, "what": msg,
                             "implementation_log": [list(map(str, e)) for e in r.log]}, size=size(case, r.schedule))
     chk.cov["evaluations"] = 1
